@@ -1,4 +1,6 @@
 'use strict';
+// the spaces a check enumerates (names as they appear under coverage.bounds of its evidence file)
+function spaceList(c) { try { const q = c.spaces('quick', null).map((x) => x.name); const t = c.spaces('thorough', null).map((x) => x.name).filter((n) => !q.includes(n)); return ' Spaces enumerated: ' + q.join('; ') + (t.length ? '; thorough only: ' + t.join('; ') : '') + '.'; } catch (e) { return ''; } }
 // Regenerates MANIFEST.json from the check modules that exist under explore/checks.
 const fs = require('fs');
 const path = require('path');
@@ -19,7 +21,7 @@ for (const p of props) {
     engine: 'explore',
     level_claimed: {
       category: 'model_checking',
-      text: c.levelText || ('Bounded exhaustive exploration: ' + c.rule),
+      text: c.levelText || ('Bounded exhaustive exploration: ' + c.rule + spaceList(c)),
       design_ref: 'DESIGN.md §4 ' + p.id,
     },
     level_note: (c.assumptions || []).join('; ') + '; small-scope claim: nothing is said about inputs beyond the stated bounds',
